@@ -214,6 +214,7 @@ func c14Case(c *core.Ctx, router routers.Router, script []c14op, cls c14reqClass
 	}
 	// through the middleware
 	calls := 0
+	logCalls := 0
 	var errCalls []string
 	opts := []openapi3filter.ValidatorOption{openapi3filter.Strict(strict), openapi3filter.ValidationOptions(optset.o)}
 	if custom {
@@ -221,9 +222,9 @@ func c14Case(c *core.Ctx, router routers.Router, script []c14op, cls c14reqClass
 			errCalls = append(errCalls, fmt.Sprintf("%d/%d", status, code))
 			w.WriteHeader(status)
 			w.Write([]byte("custom-error"))
-		}), openapi3filter.OnLog(func(context.Context, string, error) {}))
+		}), openapi3filter.OnLog(func(context.Context, string, error) { logCalls++ }))
 	} else {
-		opts = append(opts, openapi3filter.OnLog(func(context.Context, string, error) {}))
+		opts = append(opts, openapi3filter.OnLog(func(context.Context, string, error) { logCalls++ }))
 	}
 	v := openapi3filter.NewValidator(router, opts...)
 	rec := httptest.NewRecorder()
@@ -276,6 +277,14 @@ func c14Case(c *core.Ctx, router routers.Router, script []c14op, cls c14reqClass
 		}
 		if len(errCalls) != 0 {
 			c.Violate(feat("onerr_called_in_nonstrict"), mk(strings.Join(errCalls, " "), ""), desc)
+		}
+		// the response is checked all the same and an invalid one is reported to the log callback: judged against the
+		// status the client received (the first WriteHeader, else the implicit 200)
+		if c14WrapperStatus(script) != 0 {
+			if (logCalls > 0) != !respValid {
+				c.Violate(feat("nonstrict_report_differs_from_response_validity"), mk(fmt.Sprintf("log callback calls=%d", logCalls), fmt.Sprintf("response valid=%v (status the client got: %d)", respValid, c14WrapperStatus(script))), desc)
+			}
+			c.Cover("nonstrict_reports", fmt.Sprintf("valid=%v/logged=%v", respValid, logCalls > 0))
 		}
 	case respValid:
 		// exactly the status and body the handler wrote: the first WriteHeader (else 200) and the concatenated writes.
